@@ -217,7 +217,9 @@ def make_ortho(spec):
                         out.append(("ortho/corners", "corner (%s w/2, %s h/2, %s) of the view box goes to %s, expected %s (w=%r h=%r near=%r far=%r)"
                                     % (sx, sy, "-near" if wz == -1 else "-far", [float(x) for x in got], want, w, h, near, far)))
                     back = mvec(B, [F(x) for x in want] + [F(1)])[:3]
-                    sc = max(abs(x) for x in p)
+                    # the inverse's z row holds (far - near)/2 and (far + near)/2, whose difference is near: the rounding of
+                    # entries of that size is what bounds the accuracy, not the size of the corner itself
+                    sc = max([abs(x) for x in p] + [abs(fn), abs(ff), abs(fw), abs(fh)])
                     if any(abs(g - x) > F(1, 10 ** 12) * sc * max(1, tol * 10 ** 12) for g, x in zip(back, p[:3])):
                         out.append(("ortho/inverse-corners", "inverse matrix sends %s to %s, expected %s" % (want, [float(x) for x in back], [float(x) for x in p[:3]])))
         inverse_clause("ortho", A, B, out)
